@@ -285,12 +285,12 @@ Definition step (rec : mode -> st -> res) (m : mode) (s : st) : res :=
     | KRange => rec (Lvl 14) s
     | KUnary =>
         match cur s with
-        | SBin OSub => bind (rec (Lvl 15) (next s)) (fun e s1 => Ok (EUn UNeg e) s1)
-        | SNot => bind (rec (Lvl 15) (next s)) (fun e s1 => Ok (EUn UNot e) s1)
-        | SBnot => bind (rec (Lvl 15) (next s)) (fun e s1 => Ok (EUn UBnot e) s1)
+        | SBin OSub => nil_err (rec (Lvl 15) (next s)) (fun e s1 => Ok (EUn UNeg e) s1)
+        | SNot => nil_err (rec (Lvl 15) (next s)) (fun e s1 => Ok (EUn UNot e) s1)
+        | SBnot => nil_err (rec (Lvl 15) (next s)) (fun e s1 => Ok (EUn UBnot e) s1)
         | SBin OBand => Unsup
-        | SIncr => bind (rec (Lvl 15) (next s)) (fun e s1 => Ok (EPreInc true e) (skip_semis_all s1))
-        | SDecr => bind (rec (Lvl 15) (next s)) (fun e s1 => Ok (EPreInc false e) (skip_semis_all s1))
+        | SIncr => nil_err (rec (Lvl 15) (next s)) (fun e s1 => Ok (EPreInc true e) (skip_semis_all s1))
+        | SDecr => nil_err (rec (Lvl 15) (next s)) (fun e s1 => Ok (EPreInc false e) (skip_semis_all s1))
         | _ => bind (rec (Lvl 16) s) (fun e s1 => rec (ULoop e) s1)
         end
     | KPow =>
